@@ -101,9 +101,23 @@ def _infra_digest(infra):
     """digest of the pickled `infrastructure` argument of simulate(): every program of a simulation gets the
     SAME in-memory object in sequential mode and must leave it untouched (it works on a deep copy)"""
     try:
+        import io
         import pickle
 
-        return hashlib.sha1(pickle.dumps(infra, protocol=4)).hexdigest()
+        import numpy as _np
+
+        class _P(pickle.Pickler):
+            # random generators reachable from the object (a frozen scipy distribution of a dist-type emissions source
+            # refers to numpy's GLOBAL RandomState, whose state moves with every draw of the task) are not part of the
+            # object's own state: the generator states are watched separately
+            def persistent_id(self, obj):
+                if isinstance(obj, (_np.random.RandomState, _np.random.Generator, _np.random.BitGenerator)):
+                    return "rng"
+                return None
+
+        buf = io.BytesIO()
+        _P(buf, protocol=4).dump(infra)
+        return hashlib.sha1(buf.getvalue()).hexdigest()
     except Exception:
         return None
 
